@@ -585,6 +585,33 @@ func stageLayering(c *an.Ctx, rule string) {
 					if ap.LastField() == "Task" && an.SameValue(ap.Base, stage) {
 						copyOfTask = true
 					}
+					// (a helper that gets the task itself: `c := *t` with t bound to stage.Task at every call site)
+					if u, ok := st.Val.(*ssa.UnOp); ok && u.Op == token.MUL {
+						if prm, ok := u.X.(*ssa.Parameter); ok && prm.Parent() == builder && builder != f {
+							idx := paramIndexOf(builder, prm)
+							sites := c.P.CallSitesOf(builder)
+							all := idx >= 0 && len(sites) > 0
+							for _, site := range sites {
+								cc := site.Common()
+								ai := idx
+								if cc.IsInvoke() {
+									ai--
+								}
+								if ai < 0 || ai >= len(cc.Args) {
+									all = false
+									continue
+								}
+								cs := stageOf(site.Parent())
+								ap := an.AccessPath(cc.Args[ai])
+								if cs == nil || ap.LastField() != "Task" || !an.SameValue(ap.Base, cs) {
+									all = false
+								}
+							}
+							if all {
+								copyOfTask = true
+							}
+						}
+					}
 					// (the stage itself may have been read from a field of a work item: compare the object the Task field is read from)
 					v := st.Val
 					for k := 0; k < 3; k++ {
